@@ -53,6 +53,7 @@ from mashumaro.core.meta.helpers import (
     type_name,
 )
 from mashumaro.core.meta.types.common import NoneType
+from mashumaro.dialect import Dialect
 from mashumaro.helper import pass_through
 from mashumaro.jsonschema.annotations import (
     Annotation,
@@ -297,12 +298,23 @@ def _get_schema_or_none(
 
 
 def _default(f_type: Type, f_value: Any, config_cls: Type[BaseConfig]) -> Any:
+    # the helper class must always emit its only field under its own name,
+    # whatever key-dropping or renaming options the owner class carries
+    class CCDialect(getattr(config_cls, "dialect", None) or Dialect):  # type: ignore
+        omit_none = False
+        omit_default = False
+        serialize_by_alias = False
+
     @dataclass
     class CC(DataClassJSONMixin):
         x: f_type = f_value  # type: ignore
 
         class Config(config_cls):  # type: ignore
-            pass
+            aliases: dict = {}
+            dialect = CCDialect
+            omit_none = False
+            omit_default = False
+            serialize_by_alias = False
 
     return CC(f_value).to_dict()["x"]
 
